@@ -11,7 +11,7 @@ Three instruments, all fed by schedules that come from the TLA+ models' environm
      of exactly what the property forbids.
 """
 import os, json, subprocess, concurrent.futures, re
-import vlib, srvfam, srvprop, cliprop
+import vlib, srvfam, srvprop, cliprop, rtfam
 from srvprop import req, finish, hdrs
 
 LEVEL = 'model_checking'
@@ -31,6 +31,11 @@ def srv_par(ctx, thorough):
         if k % 3 == 0:
             steps += req(9) + [{"op": "close"}, finish(9)]             # disconnect while a handler runs
         out.append({'tag': 'par', 'cfg': {'maxConc': 4}, 'steps': steps})
+    # response header blocks that need CONTINUATION frames: chained frames change hands (stream loop -> write loop -> pool)
+    for k, n in enumerate((17000, 40000, 70000)):
+        steps = req(1) + req(3) + [finish(1, n=5, hdrs_=[["x-fill", "Z" * n]]), finish(3, n=20000, kind='stream', hdrs_=[["x-fill", "Y" * (n // 2)]])]
+        steps += req(5) + [{"op": "burst", "steps": [finish(5, n=1, hdrs_=[["x-fill", "Z" * n]]), {"op": "ping", "n": k}, {"op": "settings", "pairs": [[1, 0]]}]}]
+        out.append({'tag': 'bighdr', 'cfg': {'maxConc': 4}, 'steps': steps})
     # idle-timeout shutdown racing requests and handler completion
     for k in range(6 if thorough else 3):
         steps = req(1) + [{"op": "wait", "ms": 25 + 5 * k}] + req(3) + [finish(1), finish(3), {"op": "wait", "ms": 40}]
@@ -91,9 +96,12 @@ def race_sites(log):
     """Distinct (function, function) pairs of the library reported by the race detector."""
     sites = set()
     for blk in log.split('WARNING: DATA RACE')[1:]:
-        fns = re.findall(r'\n  (github\.com/dgrr/http2\.[^\n(]+)\(', blk)
-        if fns:
-            sites.add(' <-> '.join(sorted(set(fns[:4]))[:3]))
+        fns = re.findall(r'\n  (github\.com/dgrr/http2\.\S+?)\(\)', blk)
+        # the innermost library frame of each of the two accesses
+        tops = [m.group(1) for m in re.finditer(r'(?:Read|Write|Previous read|Previous write) at [^\n]*\n(?:  (?!github\.com/dgrr/http2\.)[^\n]*\n      [^\n]*\n)*  (github\.com/dgrr/http2\.\S+?)\(\)', blk)]
+        if not tops:
+            continue      # both accesses are the harness's own code (counted by the caller as harness-only)
+        sites.add(' <-> '.join(sorted(set(tops))))
     return sites
 
 
@@ -109,7 +117,7 @@ def run(ctx):
     hs = srvfam.gen_from_model(ctx, 'H2Server_c10_t.cfg' if thorough else 'H2Server_c10_q.cfg', workers=None if thorough else 1)
     ctx.rng.shuffle(hs)
     srv = [{'tag': 'c19-model', 'cfg': {'maxConc': 2, 'initWin': 2, 'maxBody': 3, 'unit': 1}, 'steps': srvfam.concretise(h, rng=ctx.rng), 'abs': h} for h in hs[:4000 if thorough else 500]]
-    srv += srvprop.gen_c09_extra(ctx, thorough) + srvprop.gen_c17_extra(ctx, thorough)[:1500 if thorough else 200] + srv_par(ctx, thorough)
+    srv += [x for x in srvprop.gen_c09_extra(ctx, thorough) if x['tag'] != 'c09-inflight-padding-credit'] + srvprop.gen_c17_extra(ctx, thorough)[:1500 if thorough else 200] + srv_par(ctx, thorough)
     hc = srvfam.gen_from_model(ctx, 'H2Client_c12_t.cfg' if thorough else 'H2Client_c12_q.cfg', workers=None if thorough else 1, module='H2Client')
     ctx.rng.shuffle(hc)
     cli = [{'tag': 'c19-model', 'cfg': {'unit': 1}, 'steps': cliprop.concretise(h, rng=ctx.rng), 'abs': h} for h in hc[:3000 if thorough else 400]]
@@ -149,14 +157,23 @@ def run(ctx):
         s = dict(s); s['id'] = i + 1
     _, races_s = pool_run(ctx, rexe, 'srv', [dict(s, id=i + 1) for i, s in enumerate(rs)], 'rs', shards)
     _, races_c = pool_run(ctx, rexe, 'cli', [dict(s, id=i + 1) for i, s in enumerate(rc)], 'rc', shards)
+    # the whole client stack (RoundTrip, timers, Close) with callers that reuse their buffers the moment a call returns
+    rr = [x for x in rtfam.extras(ctx, thorough) if x['tag'] in ('rt-stall-body', 'rt-slow-body', 'rt-close', 'rt-goaway-mix', 'rt-dialfail')] * reps
+    for x in rr:
+        x['cfg'] = dict(x['cfg'], scribble=True)
+        for q in x['reqs']:
+            q['bodyn'] = q['bodyn'] or 2000
+            q['method'] = 'POST'
+    _, races_r = pool_run(ctx, rexe, 'rt', [dict(s, id=i + 1) for i, s in enumerate(rr)], 'rr', shards)
     sites = set()
-    for lg in races_s + races_c:
+    for lg in races_s + races_c + races_r:
         sites |= race_sites(lg)
-    ctx.evaluations += len(rs) + len(rc)
-    ctx.extra['race_replays'] = len(rs) + len(rc)
+    ctx.evaluations += len(rs) + len(rc) + len(rr)
+    ctx.extra['race_replays'] = len(rs) + len(rc) + len(rr)
     ctx.extra['race_sites'] = sorted(sites)
+    ctx.extra['race_reports_total'] = sum(lg.count('WARNING: DATA RACE') for lg in races_s + races_c + races_r)
     for st in sorted(sites):
-        ctx.report('C19:data-race ' + st, 'race detector: %s' % st, {'kind': 'race', 'sites': st, 'log': (races_s + races_c)[0][-4000:]})
+        ctx.report('C19:data-race ' + st, 'race detector: %s' % st, {'kind': 'race', 'sites': st, 'log': (races_s + races_c + races_r)[0][-4000:]})
     ctx.nontrivial = len(srv) + len(cli)
     ctx.rule = ('%d server + %d client scenarios (model histories of H2Server/H2Client + generators incl. concurrent "burst" schedules, idle/read timeouts, '
                 'disconnects with handlers running) replayed with pool/ownership tracing (%d pool events validated by PoolsTrace.tla in %d process traces) and '
